@@ -13,7 +13,7 @@ package compile
 //@   ensures(id) err == nil ==> int64(result.ID) == int64(src.ID)
 //@   ensures(idrange) err == nil ==> (1 <= src.ID || options.allowNegativeIDs)
 //@   ensures(name) err == nil ==> result.Name == src.Name
-//@   ensures(fresh) err == nil ==> fresh(result)
+//@   ensures(fresh) err == nil ==> fresh(result) && result != nil
 
 //@ contract compileEnum
 //@   props C09
@@ -30,3 +30,53 @@ package compile
 //@   ensures(explicit) err == nil ==> forall(k, 0, len(src.Items), src.Items[k].Value != nil ==> int64(result.Items[k].Value) == int64(*src.Items[k].Value))
 //@   ensures(implicit) err == nil ==> forall(k, 1, len(src.Items), src.Items[k].Value == nil ==> int64(result.Items[k].Value) == int64(result.Items[k-1].Value) + 1)
 //@   ensures(first) err == nil && len(src.Items) > 0 && src.Items[0].Value == nil ==> result.Items[0].Value == 0
+
+//@ fieldcontract namespace.transform
+//@   pure
+//@   ensures result == apply_str(fn, arg0)
+
+//@ contract (namespace).claim
+//@   props C09
+//@   requires n.names != nil
+//@   modifies mapof(n.names)
+//@   ensures(conflict) (err != nil) <==> old(has(n.names, apply_str(n.transform, name)))
+//@   ensures(marks) err == nil ==> has(n.names, apply_str(n.transform, name))
+//@   ensures(keeps) forall(s, Str, old(has(n.names, s)) ==> has(n.names, s))
+//@   ensures(only) forall(s, Str, has(n.names, s) && s != apply_str(n.transform, name) ==> old(has(n.names, s)))
+
+//@ contract newNamespace
+//@   props C09
+//@   modifies nothing
+//@   ensures result.names != nil && fresh(result.names) && result.transform == t
+//@   ensures forall(s, Str, !has(result.names, s))
+
+//@ contract compileFields
+//@   props C09
+//@   requires forall(k, 0, len(src), src[k] != nil && allocated(src[k]))
+//@   let tr = caseSensitive
+//@   loop 1: invariant -1 <= ridx && ridx < len(src)
+//@   loop 1: invariant len(fields) == ridx + 1
+//@   loop 1: invariant fieldsNS.names != nil && fieldsNS.transform == tr && usedIDs != nil
+//@   loop 1: invariant forall(k, 0, ridx+1, fields[k] != nil && allocated(fields[k]) && int64(fields[k].ID) == int64(src[k].ID))
+//@   loop 1: invariant forall(k, 0, ridx+1, has(usedIDs, fields[k].ID) && has(fieldsNS.names, apply_str(tr, src[k].Name)))
+//@   loop 1: invariant forall(a, 0, ridx+1, forall(b, 0, ridx+1, a != b ==> fields[a].ID != fields[b].ID))
+//@   loop 1: invariant forall(a, 0, ridx+1, forall(b, 0, ridx+1, a != b ==> apply_str(tr, src[a].Name) != apply_str(tr, src[b].Name)))
+//@   loop 1: decreases len(src) - ridx
+//@   ensures(ids) err == nil ==> len(result) == len(src) && forall(k, 0, len(src), int64(result[k].ID) == int64(src[k].ID))
+//@   ensures(uniqueids) err == nil ==> forall(a, 0, len(result), forall(b, 0, len(result), a != b ==> result[a].ID != result[b].ID))
+//@   ensures(uniquenames) err == nil ==> forall(a, 0, len(src), forall(b, 0, len(src), a != b ==> src[a].Name != src[b].Name))
+
+//@ contract RootTypeSpec
+//@   inline
+
+//@ contract (ConstantInt).Link
+//@   props C09
+//@   let rt = ite(typeis(t, *TypedefSpec), t.(*TypedefSpec).root, t)
+//@   ensures(i8) err == nil && typeis(rt, *I8Spec) ==> -128 <= int64(c) && int64(c) <= 127
+//@   ensures(i16) err == nil && typeis(rt, *I16Spec) ==> -32768 <= int64(c) && int64(c) <= 32767
+//@   ensures(i32) err == nil && typeis(rt, *I32Spec) ==> -2147483648 <= int64(c) && int64(c) <= 2147483647
+//@   ensures(bool) err == nil && typeis(rt, *BoolSpec) ==> c == 0 || c == 1
+//@   ensures(enum) err == nil && typeis(rt, *EnumSpec) ==> typeis(result, EnumItemReference) && int64(result.(EnumItemReference).Item.Value) == int64(c)
+
+//@ contract (ConstantInt).checkRange
+//@   inline
